@@ -43,7 +43,9 @@ struct RpdoRun : NodeEnv {
     }
     bool imageOk(std::string &why) { for (auto &d : objs) { uint32_t st = w.raw(0, 0x2100, d.sub); if (st != val[d.sub]) { why = "object 2100h:" + std::to_string(d.sub) + " holds " + hex(st) + ", model " + hex(val[d.sub]); return false; } } return true; }
     void op(const Op &o) {
-        const std::string &k = o.k; if (k == "obj" || k == "rpdocfg") return; size_t mk = w.mark(); int expSyncUpd = 0, maybeSyncUpd = 0; int expRecv = -1;
+        const std::string &k = o.k; if (k == "obj" || k == "rpdocfg") return;
+        if (k == "rpdoburst") { int64_t cnt = std::min<int64_t>(o.arg(1), 1100); cov.hit("rpdo-burst-of-256-or-more-between-syncs", cnt >= 256 ? 1 : 0); for (int64_t i = 0; i < cnt && v.ok; i++) op(Op("rpdo", {o.arg(0), 0, 8}, o.b)); return; }   // many receptions of one RPDO before the next SYNC, each judged on its own
+        size_t mk = w.mark(); int expSyncUpd = 0, maybeSyncUpd = 0; int expRecv = -1;
         std::map<uint8_t, uint32_t> before = val; std::vector<std::map<uint8_t, uint32_t>> alts;   // alternative images (unknown buffered frame)
         if (k == "tick") w.tick(0, (uint64_t)o.arg(0));
         else if (k == "lost") {   // F6: the CAN driver reports an error (or nothing) for an announced RPDO / SYNC frame: nothing was received, nothing may change
@@ -105,7 +107,8 @@ Plan gen_rpdo(Rng &r, bool thorough) {
     int n = (int)r.range(3, thorough ? 50 : 25);
     for (int i = 0; i < n; i++) {
         int c = (int)r.below(20);
-        if (c < 9) { std::vector<uint8_t> b; for (int j = 0; j < 8; j++) b.push_back(r.byte()); p.ops.push_back(Op("rpdo", {(int64_t)r.below(4), r.chance(5, 6) ? 0 : r.pick<int64_t>({1, -1, 0x80}), r.chance(5, 6) ? 8 : (int64_t)r.below(9)}, b)); }
+        if (c < 9 && r.chance(1, 40)) { std::vector<uint8_t> b; for (int j = 0; j < 8; j++) b.push_back(r.byte()); p.ops.push_back(Op("rpdoburst", {(int64_t)r.below(4), r.pick<int64_t>({255, 256, 256, 257, 512, 300})}, b)); p.ops.push_back(Op("sync")); }
+        else if (c < 9) { std::vector<uint8_t> b; for (int j = 0; j < 8; j++) b.push_back(r.byte()); p.ops.push_back(Op("rpdo", {(int64_t)r.below(4), r.chance(5, 6) ? 0 : r.pick<int64_t>({1, -1, 0x80}), r.chance(5, 6) ? 8 : (int64_t)r.below(9)}, b)); }
         else if (c < 14) p.ops.push_back(Op("sync"));
         else if (c < 16) p.ops.push_back(Op("wr", {(int64_t)r.below((uint32_t)nobj), (int64_t)r.below(0x10000) * 65537}));
         else if (c < 18) p.ops.push_back(Op("nmt", {r.pick<int64_t>({1, 1, 2, 128, 128, 130})}));
